@@ -1,5 +1,6 @@
 import AutoVerif.Drv.Codec
 import AutoVerif.Spec.C18
+import Std.Data.HashSet
 open Lean AutoVerif.Codec
 namespace AutoVerif.C18
 
@@ -54,6 +55,179 @@ def closeAtBucket (ns : Nat) : String :=
   if ns = 0 then "0" else if ns < 1000000 then "<1ms" else if ns < 1000000000 then "<1s"
   else if ns % 1000000000 = 0 then "grid" else if ns % 1000000000 = 1 then "grid+1ns" else if ns % 1000000000 = 999999999 then "grid-1ns" else "off-grid"
 
+/-! ### trace validation: find an explanation of one recoverer's log
+
+Depth-first search: at every node the events that may come next (`Spec.C18.wellOrdered`: the head of a goroutine whose
+previous event was logged after everything still pending before it), tried in log order, then the hidden steps
+(`hiddenOk`); a memo of configurations already known to fail; a node budget.  The search only PROPOSES the item list;
+acceptance is decided by `Spec.C18.traceOk` on it.  A search that runs out of budget is INCONCLUSIVE, not a rejection. -/
+
+/-- the system whose paths explain a log: trace states `σ`, hidden-step names `ι` -/
+structure Sys (σ ι : Type) where
+  key : σ → Array Nat                -- for the memo of failed configurations
+  evStep : σ → Ev → Option σ         -- Spec `tstep`
+  hidden : σ → List (ι × σ)          -- enabled hidden steps with their successors (Spec `hiddenOk` + model step)
+
+structure Search where
+  evs : Array Ev
+  thr : Array Nat            -- goroutine number (dense) of every event
+  next : Array (Option Nat)  -- next event of the same goroutine
+
+structure SearchSt where
+  failed : Std.HashSet (Array Nat) := {}
+  nodes : Nat := 0
+  deepest : Nat := 0
+  stuckAt : Nat := 0
+
+def mkSearch (evs : Array Ev) : Search × Array (Option Nat) := Id.run do
+  let mut ids : List (Nat × Nat) := []
+  let mut thr : Array Nat := #[]
+  let mut last : Array (Option Nat) := #[]
+  let mut heads : Array (Option Nat) := #[]
+  let mut next : Array (Option Nat) := Array.replicate evs.size none
+  for i in [0:evs.size] do
+    let th := evs[i]!.g
+    let tid ← match ids.find? (fun p => p.1 == th) with
+      | some p => pure p.2
+      | none => do
+        let t := ids.length
+        ids := (th, t) :: ids
+        last := last.push none
+        heads := heads.push none
+        pure t
+    thr := thr.push tid
+    match last[tid]! with
+    | none => heads := heads.set! tid (some i)
+    | some p => next := next.set! p (some i)
+    last := last.set! tid (some i)
+  return ({ evs := evs, thr := thr, next := next }, heads)
+
+def spcKey : SPc → Nat
+  | .init => 0 | .spawn => 1 | .store => 2 | .sel => 3 | .parked => 4 | .cool => 5 | .respawn => 6 | .clear => 7 | .done => 8
+def cpcKey : CPc → Nat
+  | .idle => 0 | .load => 1 | .svcClose => 2 | .waitDone => 3 | .signal => 4 | .ret => 5
+def svcKey : Svc → Nat
+  | .unstarted => 0 | .starting => 1 | .started => 2 | .stopping => 3 | .stopped => 4
+def msgKey : Option Msg → Nat
+  | none => 0 | some .nil => 1 | some .svcErr => 2 | some .stopped => 3 | some .cancelled => 4
+def wpcKey : V2.WPc → Nat
+  | .absent => 0 | .sel => 1 | .parked => 2 | .cool => 3 | .rerun => 4 | .done => 5
+
+def tkey (t : TState) : Array Nat :=
+  let c := t.c
+  #[spcKey c.spc, if c.running then 1 else 0, msgKey c.buf, svcKey c.svc, if c.stopReq then 1 else 0, if c.done then 1 else 0,
+    c.nCall, c.nStarting, c.nRun, c.nSendNil, c.nSendErr, c.nSendStopped, cpcKey c.cpc, if c.svcErr then 1 else 0,
+    if c.dropped then 1 else 0, if c.latch then 1 else 0, msgKey t.handed]
+
+def hiddenLabels : List CLabel := [.sSel, .gCall, .gStarted, .gStopSeen, .cSvcClose, .cWaitDone, .gPanic]
+
+/-- the v3 recoverer -/
+def sysV3 : Sys TState CLabel where
+  key := tkey
+  evStep := tstep
+  hidden t := hiddenLabels.filterMap fun l =>
+    if hiddenOk t l then (stepCore t.c l).map fun c' => (l, { t with c := c' }) else none
+
+/-- the OCR2 RecoverableService -/
+def sysV2 : Sys V2.VTState Unit where
+  key t :=
+    let c := t.c
+    #[if c.running then 1 else 0, if c.stopClosed then 1 else 0, if c.svcStopped then 1 else 0, msgKey c.buf, wpcKey c.wpc,
+      c.nCall, c.nDo, c.nSendNil, c.nSendErr, c.nSendStopped, msgKey t.handed]
+  evStep := V2.vtstep
+  hidden t :=
+    if t.c.wpc = .sel ∧ t.c.buf = none ∧ t.handed = none then
+      match V2.vstep t.c .wSel with
+      | some c' => [((), { t with c := c' })]
+      | none => []
+    else []
+
+partial def firstPending (done : Array Bool) (i : Nat) : Nat :=
+  if i < done.size && done[i]! then firstPending done (i + 1) else i
+
+partial def dfs {σ ι : Type} (sys : Sys σ ι) (sr : Search) (budget : Nat) (t : σ) (heads : Array (Option Nat)) (done : Array Bool)
+    (first placed : Nat) (acc : List (Nat ⊕ ι)) : StateM SearchSt (Option (List (Nat ⊕ ι))) := do
+  if placed == sr.evs.size then return some acc.reverse
+  let st ← get
+  if st.nodes > budget then return none
+  let key := (heads.map fun h => h.getD sr.evs.size) ++ sys.key t
+  if st.failed.contains key then return none
+  set { st with nodes := st.nodes + 1, deepest := max st.deepest placed,
+                stuckAt := if placed ≥ st.deepest then first else st.stuckAt }
+  -- the events that may come next (`Spec.C18.wellOrdered`), in log order
+  let cands := ((heads.toList.filterMap id).filter fun h =>
+    sr.evs[h]!.pa == 0 || (sr.evs.getD first default).pos + 1 > sr.evs[h]!.pa).mergeSort
+  for h in cands do
+    match sys.evStep t sr.evs[h]! with
+    | none => pure ()
+    | some t' =>
+      let heads' := heads.set! sr.thr[h]! sr.next[h]!
+      let done' := done.set! h true
+      match ← dfs sys sr budget t' heads' done' (firstPending done' first) (placed + 1) (.inl h :: acc) with
+      | some w => return some w
+      | none => pure ()
+  for (l, t') in sys.hidden t do
+    match ← dfs sys sr budget t' heads done first placed (.inr l :: acc) with
+    | some w => return some w
+    | none => pure ()
+  modify fun st => { st with failed := st.failed.insert key }
+  return none
+
+structure TraceVerdict where
+  ok : Bool
+  /-- the search ran out of budget before it found an explanation or exhausted them: nothing is known about the trace -/
+  inconclusive : Bool := false
+  msg : String := ""
+  nodes : Nat := 0
+
+def showEv (e : Ev) : String := s!"{e.pt}[g{e.g},k{e.k}]"
+
+def traceBudget : Nat := 200000
+
+def searchTrace {σ ι : Type} (sys : Sys σ ι) (t0 : σ) (evs : Array Ev) (accept : List (Nat ⊕ ι) → Bool) : TraceVerdict :=
+  let (sr, heads) := mkSearch evs
+  let (res, st) := (dfs sys sr traceBudget t0 heads (Array.replicate evs.size false) 0 0 []).run {}
+  match res with
+  | some items =>
+    -- the decision is taken by the checker the theorems `trace_sound` / `trace_sound_v2` are about
+    if accept items then { ok := true, nodes := st.nodes }
+    else { ok := false, msg := "internal: proposed explanation rejected by Spec.traceOk", nodes := st.nodes }
+  | none =>
+    let out := decide (st.nodes > traceBudget)
+    let e := evs.getD st.stuckAt default
+    { ok := false, inconclusive := out, nodes := st.nodes,
+      msg := s!"{if out then "search budget exhausted; " else ""}no admissible reordering of the log (hidden steps filled in) is a path of the model: stuck after {st.deepest} of {evs.size} events; first event that cannot be placed: #{st.stuckAt} {showEv e}; log: {evs.toList.map showEv}" }
+
+def checkTrace (latched : Bool) (evs : Array Ev) : TraceVerdict :=
+  searchTrace sysV3 { c := initOf latched } evs fun items =>
+    traceOk latched evs (items.map fun | .inl i => Item.ev i | .inr l => Item.hid l)
+
+def checkTraceV2 (evs : Array Ev) : TraceVerdict :=
+  searchTrace sysV2 { c := V2.vinit } evs fun items =>
+    V2.vtraceOk evs (items.map fun | .inl i => V2.VItem.ev i | .inr _ => V2.VItem.park)
+
+def evOf (j : Json) : R (Nat × Ev) := do
+  pure (← natF j "r", { pt := ← strF j "p", g := ← natF j "g", k := ← natF j "k", pos := natD j "at", pa := natD j "pa" })
+
+/-- all recoverers of a case: (accepted, rejected, inconclusive, first message) -/
+def checkTraces (impl : Json) : R (Nat × Nat × Nat × String) := do
+  let evs ← listOf evOf (fieldD impl "trace" (.arr #[]))
+  let kinds ← listOf asStr (fieldD impl "traceKinds" (.arr #[]))
+  let mut acc := 0
+  let mut rej := 0
+  let mut inc := 0
+  let mut msg := ""
+  for r in [0:kinds.length] do
+    let mine := (evs.filter fun p => p.1 == r).map (·.2)
+    let kind := kinds.getD r "once"
+    let v := if kind == "v2" then checkTraceV2 mine.toArray else checkTrace (kind == "latched") mine.toArray
+    if v.ok then acc := acc + 1
+    else if v.inconclusive then inc := inc + 1
+    else
+      rej := rej + 1
+      if msg == "" then msg := s!"recoverer {r} ({kinds.getD r "once"}): {v.msg}"
+  pure (acc, rej, inc, msg)
+
 def handle (input impl : Json) : R Reply := do
   let cs ← caseOf input
   let o := obsOf impl
@@ -69,13 +243,16 @@ def handle (input impl : Json) : R Reply := do
     o.bubbleEnded == m.bubbleEnded &&
     decide (o.after2ndServiceStart = m.after2ndServiceStart) && decide (o.after2ndService = m.after2ndService) &&
     (!panicClauseApplies cs o || (o.resumed == m.resumed && o.othersTicked == m.othersTicked && (decide (cs.work = 0) || o.pipelineDone == m.pipelineDone)))
-  let agree := o.survived == m.survived && (died || agreeLive)
+  let (trAcc, trRej, trInc, trMsg) ← checkTraces impl
+  let traced := trAcc + trRej + trInc > 0
+  let agree := o.survived == m.survived && (died || agreeLive) && decide (trRej = 0)
   let sm := spec cs m
   let si := spec cs o
   let fail := if si then "" else explain cs o
   let closeAt := natD input "closeAt"
   let tags :=
     ["scenario:" ++ cs.scenario] ++
+    (if !traced then ["untraced"] else if trRej > 0 then ["trace-rejected"] else if trInc > 0 then ["trace-search-inconclusive"] else ["trace-accepted"]) ++
     (if natD input "reuse" > 0 then [s!"factory-reuse:{natD input "reuse"}"] else []) ++
     (match input.getObjVal? "family" with | .ok (.str "v2") => ["family:v2"] | _ => []) ++
     (match input.getObjVal? "holdSite" with | .ok (.str h) => if h != "" then ["hold-site:" ++ h] else [] | _ => []) ++
@@ -88,7 +265,7 @@ def handle (input impl : Json) : R Reply := do
     (if cs.scenario == "close" then ["close-at:" ++ closeAtBucket closeAt] else [])
   let key := s!"r{natD input "reuse"}/{natD input "reuseRunNs"}/{natD input "reuseGapNs"}/{(asStr (fieldD input "reuseCfg" (.str ""))).toOption.getD ""}|{(asStr (fieldD input "family" (.str ""))).toOption.getD ""}|{(asStr (fieldD input "holdSite" (.str ""))).toOption.getD ""}|{natD input "holdNs"}|{natD input "holdAtCall"}|{cs.scenario}|{cs.panicSite}|{closeAtBucket closeAt}|y{natD input "yields"}|p{natD input "preYields"}|w{natD input "work"}|l{cs.latencyNs}|a{natD input "panicAtCall"}c{natD input "panicCount"}|{closeAt}|nr{o.errNotRunning}ns{o.errNotStarted}"
   pure { agree := agree, specModel := sm, specImpl := si,
-         diff := if agree then "" else s!"model: survived={m.survived} closeReturned={m.closeReturned} notRunning={m.errNotRunning} notStarted={m.errNotStarted} serviceStart={m.leakedServiceStart} service={m.leakedService} bubbleEnded={m.bubbleEnded} resumed={m.resumed}; impl: survived={o.survived} closeReturned={o.closeReturned} notRunning={o.errNotRunning} notStarted={o.errNotStarted} serviceStart={o.leakedServiceStart} service={o.leakedService} bubbleEnded={o.bubbleEnded} resumed={o.resumed} errOther={o.errOther}",
+         diff := if agree then "" else if trRej > 0 then s!"trace rejected ({trRej} of {trAcc + trRej + trInc} recoverers): {trMsg}" else s!"model: survived={m.survived} closeReturned={m.closeReturned} notRunning={m.errNotRunning} notStarted={m.errNotStarted} serviceStart={m.leakedServiceStart} service={m.leakedService} bubbleEnded={m.bubbleEnded} resumed={m.resumed}; impl: survived={o.survived} closeReturned={o.closeReturned} notRunning={o.errNotRunning} notStarted={o.errNotStarted} serviceStart={o.leakedServiceStart} service={o.leakedService} bubbleEnded={o.bubbleEnded} resumed={o.resumed} errOther={o.errOther}",
          fail := fail, nontrivial := true, tags := tags, key := key }
 
 end AutoVerif.C18
